@@ -378,3 +378,40 @@ fn c09_managed_error_new_and_drop() {
 // ManagedXValue::new + Drop (the same contract as ManagedXError above, payloads Bool / Float / Short Int) was
 // tried as `c09_managed_value_new_and_drop`: no CBMC verdict in 20 min (XValue::size and the drop glue of
 // XValue reach `dyn XNativeValue` and the function variants).  Not registered; listed as unreached.
+
+// ---------------------------------------------------------------- C08: search budget (bounded stand-in)
+
+/// search_iter, BOUNDED (limit <= 3): exactly L permits, then exactly one MaximumSearch violation, then
+/// the end; without a limit the first four items are permits.  Independent of how the stream is built
+/// (the unbounded proof for the current shape is the Verus unit V-budget).
+#[kani::proof]
+#[kani::unwind(6)]
+#[kani::stub(std::hash::RandomState::new, const_random_state)]
+fn c08_search_iter_b3() {
+    let l: usize = kani::any();
+    kani::assume(l <= 3);
+    let limits = RuntimeLimits {
+        maximum_search: Some(l),
+        ..Default::default()
+    };
+    let mut it = limits.search_iter();
+    let mut k = 0usize;
+    while k < l {
+        assert!(matches!(it.next(), Some(Ok(()))), "a permit for each of the first L items");
+        k += 1;
+    }
+    assert!(
+        matches!(it.next(), Some(Err(RuntimeViolation::MaximumSearch))),
+        "item L+1 is the MaximumSearch violation"
+    );
+    assert!(it.next().is_none(), "the budget ends after the violation");
+    let unlimited = RuntimeLimits::default();
+    let mut it2 = unlimited.search_iter();
+    let mut j = 0usize;
+    while j < 4 {
+        assert!(matches!(it2.next(), Some(Ok(()))), "no limit: permits only");
+        j += 1;
+    }
+    forget(limits);
+    forget(unlimited);
+}
